@@ -285,3 +285,38 @@ def install(lib):
                1: IndexMatchLoop("in_edge_events"),
                2: CancelLoop(lambda st: st.f["chosen_event"].val.t)}
     C["Machine"]["behaviour"] = b
+
+    # ------------------------------------------------------------------ __init__ (C20: bad parameter types are rejected)
+    def delay_kind_ok(d):
+        return z3.Or(d.tag == V.T_FUNC, d.tag == V.T_GEN, d.tag == V.T_INT, d.tag == V.T_FLOAT, d.tag == V.T_BOOL, d.tag == V.T_NONE)
+
+    def m_ok(c):
+        return z3.And(c.args["id"].tag == V.T_STR, c.args["node_setup_time"].is_num(), delay_kind_ok(c.args["processing_delay"]))
+    mi = FnContract(
+        "__init__", [("env", ("env",), None), ("id", ("dyn",), None), ("in_edges", ("opt", ("list", ("obj", "edge"))), NONE),
+                     ("out_edges", ("opt", ("list", ("obj", "edge"))), NONE), ("node_setup_time", ("dyn",), V.dyn_of(Num(0))),
+                     ("work_capacity", ("num", "int"), Num(1)), ("processing_delay", ("dyn",), V.dyn_of(Num(0))),
+                     ("blocking", ("dyn",), V.dyn_of(VBool(True))), ("in_edge_selection", ("dyn",), V.dyn_of(VStr("FIRST_AVAILABLE"))),
+                     ("out_edge_selection", ("dyn",), V.dyn_of(VStr("FIRST_AVAILABLE")))],
+        pre=lambda st, args: [("work-capacity-positive", args["work_capacity"].t >= 1)],
+        excs=[ExcCase("TypeError", lambda c: c.args["id"].tag != V.T_STR, "id-not-a-string", unchanged=False, props=("C20",)),
+              ExcCase("ValueError", lambda c: z3.And(c.args["id"].tag == V.T_STR, z3.Not(m_ok(c))),
+                      "setup-time-or-processing-delay-of-a-wrong-type", unchanged=False, props=("C20",))],
+        normal_requires=m_ok,
+        post=lambda c: [
+            Clause("counters-start-at-zero", lambda c: z3.And(c.new.f["stats.num_item_processed"].t == 0,
+                                                              c.new.f["stats.num_item_discarded"].t == 0), ("C18",)),
+            Clause("accounting-starts-at-zero", lambda c: z3.And(*[c.new.f[TT + k].t == 0 for k in list(MIRROR) + ["SETUP_STATE"]],
+                                                                 c.new.f["stats.last_state_change_time"].isnone,
+                                                                 c.new.f["num_workers"].t == 0,
+                                                                 c.new.f["worker_thread_list"].len == 0,
+                                                                 c.new.f["time_per_work_occupancy"].len == c.args["work_capacity"].t + 1),
+                   ("C17",)),
+            Clause("worker-resource-has-work-capacity-slots", lambda c: z3.And(
+                sel(c.new, "res_capacity", c.new.f["worker_thread"].t) == c.args["work_capacity"].t,
+                sel(c.new, "res_users", c.new.f["worker_thread"].t) == 0), ("C08",)),
+            Structural("starts-its-behaviour-process", lambda c: len(
+                [x for x in c.new.ghost.get("spawned", []) if x[0] == "behaviour"]) == 1, ("C20",))],
+        uses_inv=False, keeps_inv=False, is_init=True, props=("C20", "C17", "C18", "C08"))
+    mi.no_frame = True
+    C["Machine"]["__init__"] = mi
